@@ -159,10 +159,12 @@ def h_far(e, kind, n, access):
     e.claim("canary:far", cond("==", c0.reg(7), zx(addr + 1, 32)) if access in ("la", "sw", "sb", "sh") else False)
 
 
-def h_layout(e, decls, data_first, access):
+def h_layout(e, decls, data_first, access, dcache=None):
     """declaration sequence `decls`; then one access pseudo-instruction on the last variable:
-    access in la / lw / lb / lhu / sw / sb (by name with symbolic index)"""
-    from symx.state import mk_riscv
+    access in la / lw / lb / lhu / sw / sb (by name with symbolic index).  With dcache =
+    (kind, repl, index_bits, block_bits, ways) the simulation has that data cache and the initial
+    values are additionally read through it."""
+    from symx.state import mk_riscv, cache_options
 
     T = Text(e)
     items = mk_decls(e, decls)
@@ -177,7 +179,11 @@ def h_layout(e, decls, data_first, access):
         items.append(("ins", None, access, ("var", "x7", "v%d" % last, ix)))
     else:
         items.append(("ins", None, access, ("var", "x9", "v%d" % last, ix, "x7")))
-    c0 = mk_riscv(e, mem="empty")
+    if dcache is not None:
+        kind, repl, ib, bb, ways = dcache
+        c0 = mk_riscv(e, mem="empty", dcache=cache_options(True, ib, bb, ways, kind, repl, 0))
+    else:
+        c0 = mk_riscv(e, mem="empty")
     sim = c0.sim
     text = asm.render(items, T, data_first=data_first)
     sim.load_program(text)
@@ -189,6 +195,10 @@ def h_layout(e, decls, data_first, access):
     e.claim("data-bytes", True)
     for k in keys:
         e.claim_eq("byte@%d" % (k - DATA_START), got.get(k, 0), mem.get(k, 0))
+    if dcache is not None:
+        # the same initial values as seen through the memory system the program will use
+        for k in keys:
+            e.claim_eq("byte-through-cache@%d" % (k - DATA_START), sim.state.memory.read_byte(k, False), mem.get(k, 0))
     for name, (a, size) in var.items():
         e.claim("aligned-%s" % name, cond("==", a & 3, 0))
     e.observe("bytes", [got.get(k, 0) for k in keys][:24])
@@ -320,6 +330,14 @@ def jobs(tier, seed):
     for sq in (["z"], ["z", "w1"], ["b3", "z"], ["w2"], ["h2"], ["b3"], ["s5"]):
         for acc in accesses:
             out.append({"label": "access-%s-%s" % (".".join(sq), acc), "harness": "layout", "args": {"decls": sq, "data_first": True, "access": acc}, "cost": 6, "validate_every": 2})
+    CCFG = [("wb", "lru", 0, 1, 1), ("wb", "plru", 1, 2, 2), ("wt", "lru", 0, 1, 2), ("wb", "lru", 0, 0, 2)]
+    cseqs = [["h2", "w1"], ["b1", "w1"], ["w1", "h2"], ["s1", "w2"], ["b3", "b3"], ["z", "h2"], ["w2", "s5"], ["h2", "b1", "w1"]]
+    for i, sq in enumerate(cseqs):
+        for j, cfg in enumerate(CCFG):
+            if tier == "quick" and (i + j + seed) % 2 != 0:
+                continue
+            acc = ("lw", "lb", "lhu")[(i + j) % 3]
+            out.append({"label": "cached-%s-%s-%s" % (".".join(sq), "".join(map(str, cfg)), acc), "harness": "layout", "args": {"decls": sq, "data_first": (i + j) % 3 != 0, "access": acc, "dcache": list(cfg)}, "cost": 8, "validate_every": 2})
     for kind, n in (("word", 2), ("byte", 3), ("half", 1)):
         for acc in ("la", "lw", "lb", "lhu", "sw", "sb", "sh"):
             out.append({"label": "far-%s%d-%s" % (kind, n, acc), "harness": "far", "args": {"kind": kind, "n": n, "access": acc}, "cost": 6, "validate_every": 1})
